@@ -82,8 +82,6 @@ func WriteMayAffect(w, r int) bool {
 		return cart(r) // bank / enable / latch registers change both cartridge windows
 	case in(w, 0xA000, 0xBFFF):
 		return in(r, 0xA000, 0xBFFF) // cartridge RAM window (MBC2 repeats, RTC registers)
-	case w == 0xFF06:
-		return r == 0xFF05 || r == 0xFF06 // TMA also loads TIMA in the reload cycle
 	case w == 0xFF40:
 		return r == 0xFF40 || r == 0xFF41 || r == 0xFF44 // LCD on/off resets line and mode
 	case w == 0xFF46:
@@ -106,4 +104,19 @@ func WriteMayAffect(w, r int) bool {
 		return in(r, 0xFE00, 0xFEFF)
 	}
 	return false
+}
+
+// SoundChannelOf returns the channel (0-3) a sound register address belongs to, or -1.
+func SoundChannelOf(addr int) int {
+	switch {
+	case addr >= 0xFF10 && addr <= 0xFF14:
+		return 0
+	case addr >= 0xFF16 && addr <= 0xFF19:
+		return 1
+	case addr >= 0xFF1A && addr <= 0xFF1E:
+		return 2
+	case addr >= 0xFF20 && addr <= 0xFF23:
+		return 3
+	}
+	return -1
 }
